@@ -120,6 +120,7 @@ func NewSchema(config SchemaConfig) (Schema, error) {
 
 	// Keep track of all implementations by interface name.
 	schema.implementations = implementationsOf(schema.typeMap)
+	schema.buildPossibleTypeMap()
 
 	// Enforce correct interface implementations
 	for _, ttype := range schema.typeMap {
@@ -169,7 +170,7 @@ func (gq *Schema) AddImplementation() error {
 	// existing table would list every known implementer once more, and the
 	// possible-type lookup derived from it would be stale.
 	gq.implementations = implementationsOf(gq.typeMap)
-	gq.possibleTypeMap = nil
+	gq.buildPossibleTypeMap()
 
 	// Enforce correct interface implementations
 	for _, ttype := range gq.typeMap {
@@ -246,25 +247,34 @@ func (gq *Schema) PossibleTypes(abstractType Abstract) []*Object {
 	return []*Object{}
 }
 func (gq *Schema) IsPossibleType(abstractType Abstract, possibleType *Object) bool {
-	possibleTypeMap := gq.possibleTypeMap
-	if possibleTypeMap == nil {
-		possibleTypeMap = map[string]map[string]bool{}
+	// Read-only: the table is filled when the schema is built (or a type is
+	// appended), so concurrent requests never write to it.
+	if typeMap, ok := gq.possibleTypeMap[abstractType.Name()]; ok {
+		return typeMap[possibleType.Name()]
 	}
-
-	if typeMap, ok := possibleTypeMap[abstractType.Name()]; !ok {
-		typeMap = map[string]bool{}
-		for _, possibleType := range gq.PossibleTypes(abstractType) {
-			typeMap[possibleType.Name()] = true
+	// An abstract type that is not part of this schema: answer without caching.
+	for _, ttype := range gq.PossibleTypes(abstractType) {
+		if ttype.Name() == possibleType.Name() {
+			return true
 		}
-		possibleTypeMap[abstractType.Name()] = typeMap
-	}
-
-	gq.possibleTypeMap = possibleTypeMap
-	if typeMap, ok := possibleTypeMap[abstractType.Name()]; ok {
-		isPossible, _ := typeMap[possibleType.Name()]
-		return isPossible
 	}
 	return false
+}
+
+// buildPossibleTypeMap computes, for every abstract type of the schema, the
+// set of names of its possible types.
+func (gq *Schema) buildPossibleTypeMap() {
+	possibleTypeMap := map[string]map[string]bool{}
+	for _, ttype := range gq.typeMap {
+		if abstractType, ok := ttype.(Abstract); ok {
+			typeMap := map[string]bool{}
+			for _, possibleType := range gq.PossibleTypes(abstractType) {
+				typeMap[possibleType.Name()] = true
+			}
+			possibleTypeMap[abstractType.Name()] = typeMap
+		}
+	}
+	gq.possibleTypeMap = possibleTypeMap
 }
 
 // AddExtensions can be used to add additional extensions to the schema
